@@ -1,7 +1,9 @@
 """dev helper: apply every seeded change / control to a SCRATCH worktree of /repo (never /repo itself), run all claimed quick
 checks against it (FDV_REPO), remove the worktree, write the matrix.
 
-usage: tools_sweep.py seeded|controls [id ...]
+usage: tools_sweep.py seeded|controls [--near] [id ...]
+   --near (seeded only): run, per seed, the property's own check, the checks that reported it in the last MATRIX.md and the checks of
+          the same engine family instead of all 20 (the full sweep costs about 10 CPU-minutes per seed)
 """
 import json
 import os
@@ -45,15 +47,38 @@ def one(kind, s, props):
     return s, [(p, rc, f) for p, rc, f in res if rc != 0]
 
 
+FAMILIES = [("C01", "C04", "C05", "C06", "C07", "C13", "C15"), ("C03", "C08", "C09", "C10", "C16", "C17"), ("C11", "C12", "C19"), ("C02", "C18", "C20"), ("C14", "C04", "C07")]
+
+
+def near_props(seed, props):
+    own = seed.split("-")[0]
+    out = {own}
+    for fam in FAMILIES:
+        if own in fam:
+            out |= set(fam)
+    try:
+        for line in open(f"{VERIF}/seeded/MATRIX.md"):
+            if line.startswith(f"| {seed} |"):
+                import re
+                out |= set(re.findall(r"(C\d\d) \(exit", line))
+    except OSError:
+        pass
+    return [p for p in props if p in out]
+
+
 def main():
     kind = sys.argv[1]
+    args = sys.argv[2:]
+    near = "--near" in args
+    args = [a for a in args if a != "--near"]
     items = sorted(d for d in os.listdir(f"{VERIF}/{kind}") if os.path.isdir(f"{VERIF}/{kind}/{d}"))
-    if len(sys.argv) > 2:
-        items = [s for s in items if s in sys.argv[2:]]
+    if args:
+        items = [s for s in items if s in args]
+    sys.argv = [sys.argv[0], kind] + args
     props = claimed()
     rows = []
     with ThreadPoolExecutor(3) as ex:
-        for s, hits in ex.map(lambda s: one(kind, s, props), items):
+        for s, hits in ex.map(lambda s: one(kind, s, near_props(s, props) if (near and kind == "seeded") else props), items):
             rows.append((s, hits))
             print(s, "->", ", ".join(f"{p}:{'VIOLATION' if rc == 1 else 'ANALYSIS-ERROR' if rc == 2 else rc}" for p, rc, _ in hits) or ("not detected" if kind == "seeded" else "silent (ok)"), flush=True)
     if len(sys.argv) > 2:
@@ -72,7 +97,8 @@ def main():
                 first = next((fr for p, rc, fr in hits if p == own), hits[0][2] if hits else "")
                 f.write(f"| {s} | {own} | {det} | {first.replace('|', '/')} |\n")
             n = sum(1 for _, h in rows if any(rc == 1 for _, rc, _ in h))
-            f.write(f"\n{n} of {len(rows)} seeds are reported as a VIOLATION by at least one check; claimed checks: {', '.join(props)}.\n")
+            f.write(f"\n{n} of {len(rows)} seeds are reported as a VIOLATION by at least one check; claimed checks: {', '.join(props)}"
+                    f"{' (per seed: the own check, its engine family and the checks that reported it before)' if near else ''}.\n")
         else:
             f.write("# Behaviour-preserving refactorings (false-alarm controls) versus the quick checks\n\nEach row: one independently written refactoring (see `<id>/notes.md`), applied to a scratch worktree, all claimed quick checks run. Every check must stay silent (exit 0).\n\n")
             f.write("| control | alarms (must be none) |\n|---|---|\n")
